@@ -11,8 +11,10 @@
    when the chunk lists are equal (the harness gives every uploaded body a fresh id).
    S3 multipart model: an upload collects (part number -> chunk, ETag = chunk id); completing
    it with a list of (part number, ETag) stores the concatenation of exactly the listed parts
-   (strictly ascending part numbers and matching ETags, otherwise the call fails); every S3
-   call may fail (fault oracle).  Broker model: the reply to the produce request is an oracle
+   (strictly ascending part numbers and matching ETags, otherwise InvalidPartOrder /
+   InvalidPart) and closes the upload id; UploadPart / CompleteMultipartUpload on an upload id
+   that was completed or aborted answer NoSuchUpload; every S3 call may also fail
+   transiently (fault oracle).  Broker model: the reply to the produce request is an oracle
    value (error code of the partition, transport error, unparseable frame, no partition, no
    backend).  Digests are a Section variable.  Session map, expiry and overlapping requests:
    see [sys]/[cstep] at the end.  Not modelled: API key / S3 health / topic validation (all
@@ -61,8 +63,12 @@ Inductive event :=
 | EComplete (listed : list (Z * Z)) (fault : bool) (r : reply)
 | EAbort.
 
-Record response := mkResp { p_status : Z; p_env : option envelope }.
-Definition fail (st : Z) := mkResp st None.
+(* [p_s3]: class of the S3 error behind a 502 of a Part / Complete request (0 none or not
+   observed, 1 NoSuchUpload, 2 InvalidPart / InvalidPartOrder / EntityTooSmall, 5 injected
+   transient failure): the handlers map every S3 error to 502 s3_upload_failed and echo it *)
+Record response := mkResp { p_status : Z; p_env : option envelope; p_s3 : Z }.
+Definition fail (st : Z) := mkResp st None 0.
+Definition fails3 (cls : Z) := mkResp 502 None cls.
 
 Fixpoint get_obj (k : Z) (l : list (Z * blob)) : option blob :=
   match l with [] => None | (k', b) :: l' => if k' =? k then Some b else get_obj k l' end.
@@ -128,7 +134,7 @@ Section Ext.
     else
       let env := mkEnv key (bsize pieces) (hashf 0 pieces) sum in
       let st := broker_status r in
-      (w2, if st =? 200 then mkResp 200 (Some env) else fail st).
+      (w2, if st =? 200 then mkResp 200 (Some env) 0 else fail st).
 
   Definition put_obj (w : world) (key : Z) (obj : blob) : world :=
     mkWorld (w_sess w) (w_s3open w) (w_s3parts w) ((key, obj) :: w_objects w) (w_nextkey w).
@@ -188,8 +194,9 @@ Section Ext.
         if s_size s <? s_total s + len then (w, fail 400) else
         if (s_total s + len <? s_size s) && (len <? c_min_part cfg) then (w, fail 400) else
         (* FIX c: the hashers are written only after UploadPart succeeded *)
-        (* UploadPart fails when S3 has no such open upload (completed / aborted) *)
-        if fault || negb (w_s3open w) then (w, fail 502) else
+        (* UploadPart: injected failure, or NoSuchUpload when the upload id is no longer open
+           (completed or aborted) *)
+        if fault || negb (w_s3open w) then (w, fails3 (if fault then 5 else 1)) else
         let s' := mkSess (s_key s) (s_size s) (s_expect s) (s_alg s) (s_next s + 1) (s_total s + len)
                          (s_parts s ++ [(n, fst body)]) (s_hashed s ++ [body]) in
         (mkWorld (Some s') (w_s3open w) (w_s3parts w ++ [(n, body)]) (w_objects w) (w_nextkey w), fail 200)
@@ -217,9 +224,13 @@ Section Ext.
                                     | Some etag => etag =? snd ne
                                     | None => false end) listed) then (w, fail 400) else
         if negb (listed_exact listed 1 (s_next s)) then (w, fail 400) else
-        if fault || negb (w_s3open w) then (w, fail 502) else
+        (* CompleteMultipartUpload: injected failure; NoSuchUpload for an upload id that was
+           already completed or aborted (also for a completion that arrives while an abort or
+           another completion is in flight and runs after it); InvalidPart / InvalidPartOrder
+           when the list does not match S3's parts *)
+        if fault || negb (w_s3open w) then (w, fails3 (if fault then 5 else 1)) else
         match assemble (w_s3parts w) 0 listed with
-        | None => (w, fail 502)
+        | None => (w, fails3 2)
         | Some obj =>
           let w1 := mkWorld (w_sess w) false [] ((s_key s, obj) :: w_objects w) (w_nextkey w) in
           let sum := checksum_of (s_alg s) (s_hashed s) in
@@ -227,7 +238,7 @@ Section Ext.
           let env := mkEnv (s_key s) (s_total s) (hashf 0 (s_hashed s)) sum in
           let st := broker_status r in
           (* on 200 the session is deleted from the map (see [body]); the object stays *)
-          if st =? 200 then (w1, mkResp 200 (Some env)) else (w1, fail st)
+          if st =? 200 then (w1, mkResp 200 (Some env) 0) else (w1, fail st)
         end
       end
     end.
